@@ -22,7 +22,7 @@ func init() {
 			{Name: "weight without a match reports success", File: "route/table.go", Old: "\tif n := t[host].find(path).setWeight(d.Service, d.Weight, d.Tags); n == 0 {\n\t\treturn errNoMatch\n\t}", New: "\tt[host].find(path).setWeight(d.Service, d.Weight, d.Tags)", Expect: "C05.W1"},
 			{Name: "targets de-duplicated by URL struct equality", File: "route/route.go", Old: "t.URL.String() == targetURL.String() && t.FixedWeight == fixedWeight", New: "*t.URL == *targetURL && t.FixedWeight == fixedWeight", Expect: "C05.I1"},
 			{Name: "benign: renderer with strings.Builder-like concatenation", File: "route/route.go", Old: "s += fmt.Sprintf(\" opts \\\"%s\\\"\", strings.Join(vals, \" \"))", New: "s += \" opts \\\"\" + strings.Join(vals, \" \") + \"\\\"\"", Expect: ""},
-		}, c05ExtraMutants...),
+		}, append(c05ExtraMutants, c05HardenMutants...)...),
 	})
 }
 
